@@ -34,7 +34,7 @@ PROPS["C16"] = {
 RECV_STUBS = {"google.golang.org/protobuf/proto.Unmarshal": "github.com/tsuna/gohbase/region.vUnmarshal"}
 
 PROPS["C11"] = {
-    "files": ["hrpc/c11_cells.go", "region/fakes.go", "region/c11_receive.go", "region/c15_compressor.go"],
+    "files": ["hrpc/c11_cells.go", "region/fakes.go", "region/c11_receive.go", "region/c15_compressor.go", "region/c11_info.go"],
     "claim": "No byte string up to N bytes in the position of a cellblock, and no structurally valid Get/Mutate/Scan response whose "
              "counts disagree with the data, makes the cell decoders panic, read beyond the received bytes or return a cell that is "
              "not fully inside the buffer.",
@@ -59,6 +59,8 @@ PROPS["C11"] = {
          "params": {"quick": {"N": 26, "MAXCELLS": 1}, "thorough": {"N": 52, "MAXCELLS": 2}}},
         {"name": "decompress_arbitrary", "pkg": "region", "entry": "VerifDecompressArbitrary", "reach": ["accepted"],
          "params": {"quick": {"ENC": 2, "N": 14}, "thorough": {"ENC": 2, "N": 24}}},
+        {"name": "parse_region_info", "pkg": "region", "entry": "VerifParseRegionInfo", "stubs": RECV_STUBS, "reach": ["parsed"],
+         "params": {"quick": {}, "thorough": {}}},
         {"name": "receive_multi_dispatch", "pkg": "region", "entry": "VerifReceiveMulti", "stubs": RECV_STUBS, "reach": ["answered", "left-registered"],
          "params": {"quick": {"CELLS": 0, "N": 0, "R": 2, "A": 1, "MAXCELLS": 1}, "thorough": {"CELLS": 0, "N": 0, "R": 2, "A": 2, "MAXCELLS": 1}}},
         {"name": "receive_multi_cells", "pkg": "region", "entry": "VerifReceiveMulti", "stubs": RECV_STUBS, "reach": ["answered", "left-registered"],
